@@ -7,7 +7,7 @@ keep:   store it under /verif/seeded/<id>/ (patch.diff, demo, meta.json)."""
 import sys, os, re, subprocess, json, shutil
 ENV = dict(os.environ, GOFLAGS="-mod=mod", GOPROXY="off", GOSUMDB="off", GOTOOLCHAIN="local")
 def sh(cmd, cwd=None, timeout=1800):
-    r = subprocess.run(cmd, shell=True, cwd=cwd, env=ENV, stdout=subprocess.PIPE, stderr=subprocess.STDOUT, text=True, timeout=timeout)
+    r = subprocess.run(cmd, shell=True, cwd=cwd, env=ENV, stdout=subprocess.PIPE, stderr=subprocess.STDOUT, text=True, errors="replace", timeout=timeout)
     return r.returncode, r.stdout
 def paths(prop, n):
     out = "/tmp/mut-%s-out" % prop
